@@ -110,6 +110,12 @@ def build(repo):
         D.contract('DiagnosticInfo.' + q, tags=['C18'], modifies=[],
                    requires=[('a row exists (save_info_from_control ran earlier on every path to this call):: G.rows >= 1', 'C18')], ensures=[], assumed=True,
                    notes='proved in the table bundle: writes the last row only')
+    # random-direction sources (C19 b): only the call sites matter here
+    for q in ('random_directions_within_bounds', 'random_orthog_directions_within_bounds'):
+        D.contract(q, tags=['C19'], modifies=[], result='unk', ensures=[], assumed=True,
+                   notes='source of pseudo-random directions (np.random); what it returns is decided under C14, here only WHERE it is called')
+    D.contract('Controller.get_new_direction_for_growing', tags=['C19'], modifies=[], result='unk', ensures=[], assumed=True,
+               notes='calls random_directions_within_bounds; only its call site matters here')
     D.contract('Model.shift_base', tags=['C03'], modifies=['G.gen'], ghost_return=[('G.gen', 'G.gen + 1')],
                ensures=['G.gen == old(G.gen) + 1'], assumed=True,
                notes='ghost-defining: a base shift starts a new base generation (absolute points are unchanged: proved in domain M)')
@@ -155,6 +161,7 @@ def build(repo):
     method('Controller.move_furthest_points_momentum', 'optexit', 'result')
     method('Controller.soft_restart', 'optexit', 'result', params={'nruns_so_far': 'int', 'x_in_abs_coords_to_save': 'opt:val'},
            msg_asserts={MAXRESTART_MSG: [('(f) a success flag is attached only to a finite objective:: G.objfinite', 'C10')]},
+           asserts={'before:random_directions_within_bounds#1': [('random directions only under the documented option restarts.increase_npt:: params("restarts.increase_npt")', 'C19')]},
            extra_req=['nruns_so_far >= 0', 'no caller passes an extra point to save:: isnone(x_in_abs_coords_to_save)'],
            extra_mod=['G.restarts', 'self.last_successful_run'],
            ghost_return=[('G.restarts', 'G.restarts + (1 if isnone(result) else 0)')],
@@ -192,7 +199,13 @@ def build(repo):
                           'nf == nf_so_far + i_', 'num_samples_run == i_', 'G.calls == nf', 'nf <= maxfun',
                           'nx == nx_so_far + 1', 'G.pts == nx', 'isnone(exit_info)',
                           'nruns_so_far == old(nruns_so_far)', 'G.restarts == old(G.restarts)', 'not G.pending']},
-               asserts={'return#1': [('exit at x0 names x0 as evaluation point nx:: result[10] == nx and result[4] == num_samples_run and result[0] == x0', 'C03'),
+               asserts={'before:Controller.initialise_random_directions#1': [('random initialisation only under init.random_initial_directions:: params("init.random_initial_directions")', 'C19')],
+                        'before:Controller.move_furthest_points_momentum#1': [('random extra steps only under regression.momentum_extra_steps:: params("regression.momentum_extra_steps")', 'C19')],
+                        'before:Controller.add_new_direction_while_growing#1': [('random growing directions only while the initial set is still growing:: not finished_growing', 'C19')],
+                        'before:Controller.add_new_direction_while_growing#2': [('random growing directions only while the initial set is still growing:: not finished_growing', 'C19')],
+                        'before:Controller.get_new_direction_for_growing#1': [('random perturbation only while growing and under growing.perturb_trust_region_step:: '
+                                                                              'not finished_growing and params("growing.perturb_trust_region_step")', 'C19')],
+                        'return#1': [('exit at x0 names x0 as evaluation point nx:: result[10] == nx and result[4] == num_samples_run and result[0] == x0', 'C03'),
                                            ('no Jacobian at the x0 exit:: isnone(result[3])', 'C11')],
                         'break@while#0': [
                    ('trial point offered or NaN:: not G.pending or G.nanflag', 'C04', 'C08'),
@@ -294,6 +307,42 @@ def extra_obligations(repo, D, pid):
                               'unsat', {'syntactic': True, 'why': ', '.join(bad)}))
             elif isinstance(n, (ast.With, ast.AsyncWith)):
                 out.append(Ob('%s/frame[no with-statement]' % qual, 'frame', qual, ['C08'], [], z3.BoolVal(False), n.lineno, 'unsat', {'syntactic': True}))
+    # C19 (b): np.random is used only in the listed source functions, which are called only from the listed (guarded) sites
+    sources = {'random_orthog_directions_within_bounds', 'random_directions_within_bounds', 'Controller.initialise_coordinate_directions'}
+    users, callers_of_gen = set(), set()
+    for qual, fi in repo.funcs.items():
+        if fi.module == 'hessian':
+            continue
+        for n in ast.walk(fi.node):
+            if isinstance(n, ast.Attribute) and ast.unparse(n).startswith('np.random'):
+                users.add(qual)
+            if isinstance(n, ast.Call) and isinstance(n.func, ast.Name) and n.func.id in ('random_orthog_directions_within_bounds', 'random_directions_within_bounds'):
+                callers_of_gen.add(qual)
+        for n in ast.walk(fi.node):
+            if isinstance(n, (ast.Import, ast.ImportFrom)) and 'random' in ast.unparse(n):
+                users.add(qual + ' (import)')
+    extra = sorted(users - sources)
+    out.append(Ob('package/frame[np.random is used only in the two direction generators and in the projected coordinate initialisation]', 'frame', 'package', ['C19'], [],
+                  z3.BoolVal(not extra), 0, 'unsat', {'syntactic': True, 'why': ', '.join(extra)}))
+    allowed = {'Controller.initialise_random_directions', 'Controller.add_new_direction_while_growing', 'Controller.get_new_direction_for_growing',
+               'Controller.soft_restart', 'Controller.move_furthest_points_momentum'}
+    extra = sorted(callers_of_gen - allowed)
+    out.append(Ob('package/frame[the direction generators are called only from the five documented random-option sites]', 'frame', 'package', ['C19'], [],
+                  z3.BoolVal(not extra), 0, 'unsat', {'syntactic': True, 'why': ', '.join(extra)}))
+    fi = repo.func('Controller.initialise_coordinate_directions')
+    ok = fi is not None
+    if fi is not None:
+        # every np.random use of the coordinate initialisation sits inside the `if self.model.projections:` block (the undocumented rank-deficiency fallback)
+        inside = set()
+        for n in ast.walk(fi.node):
+            if isinstance(n, ast.If) and ast.unparse(n.test) == 'self.model.projections':
+                for m in ast.walk(ast.Module(body=n.body, type_ignores=[])):
+                    if isinstance(m, ast.Attribute) and ast.unparse(m).startswith('np.random'):
+                        inside.add(id(m))
+        allr = {id(m) for m in ast.walk(fi.node) if isinstance(m, ast.Attribute) and ast.unparse(m).startswith('np.random')}
+        ok = allr <= inside
+    out.append(Ob('Controller.initialise_coordinate_directions/frame[np.random only inside the projections branch]', 'frame',
+                  'Controller.initialise_coordinate_directions', ['C19'], [], z3.BoolVal(ok), 0, 'unsat', {'syntactic': True}))
     # C02 frame: nf / nx are written, and the evaluation choke point is called, only where the ledger contracts say so
     writers = {'nf': set(), 'nx': set()}
     callers = set()
